@@ -619,25 +619,18 @@ struct Mock {
   MAKE_MOCK1(f_int, void(int));
   MAKE_MOCK1(f_str, void(std::string const&));
   MAKE_MOCK1(f_cstr, void(char const*));
-  MAKE_MOCK1(f_intp, void(int*));
   MAKE_MOCK1(f_up, void(std::unique_ptr<int> const&));
   MAKE_MOCK1(f_sp, void(std::shared_ptr<int>));
   MAKE_MOCK1(f_opt, void(std::optional<int*> const&));
-  MAKE_MOCK1(f_np, void(std::nullptr_t));
   MAKE_MOCK1(f_vpc, void(vpc_t const&));
   MAKE_MOCK1(f_tnull, void(tnull_t const&));
   MAKE_MOCK1(f_deepmap, void(deepmap_t const&));
-  MAKE_MOCK1(f_vvv, void(vvv_t const&));
-  MAKE_MOCK1(f_op5, void(Opaque<5>));
   MAKE_MOCK1(f_op17, void(Opaque<17> const&));
-  MAKE_MOCK1(f_op33, void(Opaque<33> const&));
   MAKE_MOCK1(f_userp, void(UserP));
-  MAKE_MOCK1(f_ostr, void(Ostr const&));
   MAKE_MOCK1(f_ows, void(Ows));
   MAKE_MOCK0(r_int, int());
   MAKE_MOCK0(r_cstr, char const*());
   MAKE_MOCK0(r_vpc, vpc_t());
-  MAKE_MOCK0(r_sp, std::shared_ptr<int>());
 };
 
 using Exp = std::unique_ptr<trompeloeil::expectation>;
@@ -656,21 +649,15 @@ template <class T> struct E2E { static constexpr bool has = false, has_exp = fal
 S_E2E_EXP_RET(int, f_int, r_int)
 S_E2E_EXP(std::string, f_str)
 S_E2E_EXP_RET(cstr, f_cstr, r_cstr)
-S_E2E_EXP(int*, f_intp)
 S_E2E(up_t, f_up)
-S_E2E_EXP_RET(sp_t, f_sp, r_sp)
+S_E2E(sp_t, f_sp)
 S_E2E(opt_t, f_opt)  // by reference and never copied into an expectation: the dump shows padding bytes, which a copy need not keep
-S_E2E(np_t, f_np)
 S_E2E_EXP_RET(vpc_t, f_vpc, r_vpc)
 S_E2E(tnull_t, f_tnull)
-S_E2E_EXP(deepmap_t, f_deepmap)
-S_E2E_EXP(vvv_t, f_vvv)
-S_E2E(Opaque<5>, f_op5)
+S_E2E(deepmap_t, f_deepmap)
 S_E2E(Opaque<17>, f_op17)
-S_E2E(Opaque<33>, f_op33)
 S_E2E_EXP(UserP, f_userp)
-S_E2E_EXP(Ostr, f_ostr)
-S_E2E_EXP(Ows, f_ows)
+S_E2E(Ows, f_ows)
 
 // =====================================================================================
 // One case
@@ -1001,8 +988,12 @@ static void account(const CaseIn& c, const CaseInfo& info, bool from_enum) {
   const Out& o = info.o;
   int dims = nondefault_dims(c.st);
   bool nontrivial = dims >= 2 || o.maxdepth >= 2 || o.hex_nontrivial > 0;
+  if (from_enum) {  // counted as distinct cases, but the few sample slots are left to the generated cases
+    if (nontrivial) ST.nontrivial.insert(vc::fnv1a(rendering(c, info)));
+    ST.label("enum_opaque_cases");
+    return;
+  }
   if (nontrivial) ST.nontrivial_case(vc::fnv1a(rendering(c, info)), rendering(c, info));
-  if (from_enum) { ST.label("enum_opaque_cases"); return; }
   static const char* const tops[] = {"top_streamable", "top_hexdump", "top_composite", "top_null", "top_user_printer"};
   ST.label(tops[info.top]);
   ST.label("depth_" + std::to_string(o.maxdepth > 3 ? 3 : o.maxdepth) + (o.maxdepth >= 3 ? "plus" : ""));
@@ -1140,6 +1131,8 @@ int main(int argc, char** argv) {
   bool ok = true;
   if (mode != "enum") {
     const int n_basic = g_first_opaque;
+    std::vector<int> e2e_types;
+    for (size_t i = 0; i < g_types.size(); ++i) if (g_types[i].e2e) e2e_types.push_back(static_cast<int>(i));
     ok = rc::check("C18 value printing", [&]() {
       CaseIn c;
       using namespace rc::gen;
@@ -1155,6 +1148,9 @@ int main(int argc, char** argv) {
       c.st.showbase = fl & 1; c.st.uppercase = fl & 2; c.st.boolalpha = fl & 4;
       int m = *resize(100, inRange<int>(0, 8));
       c.mode = m < 4 ? M_PRINT : m - 3;
+      // end-to-end modes only do something for the sample types: steer half of those cases to them
+      int pick = *resize(100, inRange<int>(0, 2 * static_cast<int>(e2e_types.size())));
+      if (c.mode != M_PRINT && pick < static_cast<int>(e2e_types.size())) c.tid = e2e_types[static_cast<size_t>(pick)];
       std::string why;
       if (!run_case(c, &why, false)) RC_FAIL(why);
     });
